@@ -17,7 +17,7 @@ from fsmc.explorer import ListSystem, ProductSystem
 PID = "C10"
 RULE = ("states = reachable object graphs of a ForSys under op histories (BFS, de-duplicated on a hash of all instance dictionaries); "
         "non-trivial = at least one frame solved; classes = (effective ops per frame)")
-BOUND = {"quick": "1 frame: all histories to depth 3 over 12 ops from 2 start states (fresh; solved with an angle limit and pressures); 2 frames: depth 3 over 16 ops from the fresh object, depth 2 over 18 ops from a solved one; 9 calls x 2 tissues x 2 frames with optional arguments omitted vs spelled out at their defaults; two 12-call pipelines over 2 frames and every sequence differing from them in 1 position (9 alternative calls or dropped)",
+BOUND = {"quick": "1 frame: all histories to depth 3 over 12 ops from 2 start states (fresh; solved with an angle limit and pressures); 2 frames: depth 3 over 16 ops from the fresh object, depth 2 over 18 ops from a solved one; 9 calls x 2 tissues x 2 frames with optional arguments omitted vs spelled out at their defaults; three 12-call pipelines over 2 frames and every sequence differing from them in 1 position (9 alternative calls or dropped)",
          "thorough": "1 frame: depth 4 over 13 ops from 3 start states; 2 frames: depth 3 over 22 ops from 2 start states; 3 frames: depth 2 over 19 ops from 2 start states; 12-call pipelines with 1 deviation over 18 alternatives and 2 deviations over 9 alternatives"}
 ASSUMPTIONS = ["what matters for the tensions of frame t: the last successful build of t before the last successful solve of t, and that solve's arguments",
                "what matters for the pressures of frame t: the tensions present when the pressure matrix was last built, and the last solve_pressure",
@@ -457,6 +457,9 @@ class LongSequences(ProductSystem):
 PIPELINES = [
     [["bdef", 0], ["sdef", 0], ["pbuild", 0], ["psolve", 0], ["bdef", 1], ["svel", 1], ["pbuild", 1], ["psolve", 1], ["sysvel"], ["bang", 0], ["sdef", 0], ["psolve", 0]],
     [["bang", 1], ["sdef", 1], ["bdef", 0], ["svel", 0], ["pbuild", 0], ["psolve", 0], ["btau", 1], ["slsq", 1], ["pbuild", 1], ["psolve", 1], ["bdef", 0], ["sdef", 0]],
+    # re-solving with other options on the SAME force matrix, then building and solving the pressures again (frame 0); on frame 1 the
+    # pressure matrix is built before the last re-solve (its pressures belong to the tensions present at that build)
+    [["bdef", 0], ["sdef", 0], ["pbuild", 0], ["psolve", 0], ["svel", 0], ["pbuild", 0], ["psolve", 0], ["bdef", 1], ["svel", 1], ["pbuild", 1], ["sdef", 1], ["psolve", 1]],
 ]
 
 
